@@ -396,4 +396,75 @@ theorem parse_exact_sci (neg : Bool) (d1 : Nat) (ys : List Nat) (eneg : Bool) (k
   exact parse_exact_of_realResult t neg (decVal (d1 :: ys)) (1 + ys.length) _ _ _ _ hstr href hv0 hv64 (by omega) hX
     (frac_link (decVal (d1 :: ys)) ys.length (decVal ks) eneg) hrange hcond hm
 
+/-- **`%.17g` integers** (`[-]ddd`, at most 17 digits): the parser returns the exact integer and the
+callers' conversion to `double` is the correctly rounded value — no margin needed. -/
+theorem parse_exact_int (neg : Bool) (ds : List Nat) (hds : AllDigits ds) (hne : ds ≠ [])
+    (hlead : ds = [48] ∨ ds.head? ≠ some 48) (hlen : ds.length ≤ 17) :
+    parseDouble (FmtSpec.signed neg ds) = FmtSpec.readBits64 (FmtSpec.signed neg ds) := by
+  obtain ⟨d1, xs, hdseq⟩ : ∃ d1 xs, ds = d1 :: xs := by
+    cases ds with
+    | nil => exact absurd rfl hne
+    | cons a b => exact ⟨a, b, rfl⟩
+  have hd1 : isDigit d1 = true := hds d1 (by rw [hdseq]; simp)
+  have hd1r : 48 ≤ d1 ∧ d1 ≤ 57 := by simp [isDigit] at hd1; omega
+  have hrc : readCore neg ds = some (neg, decVal ds, 1) := by
+    have := readCore_plain neg ds [] hne (allDigits_fmt hds) (by intro c hc; simp at hc)
+    simpa [digitsValue_eq] using this
+  rw [readBits64_signed neg ds d1 xs hdseq hd1r _ _ (by decide) hrc, signed_eq]
+  have hsl : (sgOf neg).length ≤ 1 := by rw [sgOf_len]; cases neg <;> simp [b2n]
+  generalize ht : sgOf neg ++ ds = t
+  have htl : t.length = (sgOf neg).length + ds.length := by rw [← ht]; simp
+  have he : t.length < 2 ^ 32 := by omega
+  have hu : unitsAt t t.length 0 (sgOf neg ++ ds) := by rw [ht]; exact unitsAt_self t
+  by_cases hz : ds = [48]
+  · -- zero
+    subst hz
+    have hz' := int_exact_zero t 0 t.length he
+    cases neg with
+    | false =>
+      simp only [sgOf, Bool.false_eq_true, if_false, List.nil_append] at ht hu htl
+      have h0 : rd t t.length 0 = some 48 := hu.1
+      have := hz'.1 h0 (Or.inl (by simp at htl; omega))
+      unfold parseDouble
+      rw [this]
+      simp at htl
+      simp [htl, decVal, nearestMag]
+    | true =>
+      simp only [sgOf, if_true] at ht hu htl
+      have := hz'.2.2 (by simpa using hu) (Or.inl (by simp at htl; omega))
+      unfold parseDouble
+      rw [this]
+      simp at htl
+      simp [htl, decVal, nearestMag]
+  · have hnz : isNonZeroDigit d1 = true := by
+      rcases hlead with h | h
+      · exact absurd h hz
+      · rw [hdseq] at h
+        simp at h
+        simp [isNonZeroDigit]; omega
+    have hxs : AllDigits xs := fun y hy => hds y (by rw [hdseq]; simp [hy])
+    have hv17 : decVal ds < 10 ^ 17 :=
+      Nat.lt_of_lt_of_le (decVal_lt_pow ds hds) (Nat.pow_le_pow_right (by decide) hlen)
+    have hv63 : decVal ds < 2 ^ 63 := Nat.lt_of_lt_of_le hv17 (by decide)
+    subst hdseq
+    cases neg with
+    | false =>
+      simp only [sgOf, Bool.false_eq_true, if_false, List.nil_append] at ht hu htl
+      have := int_exact_natural t 0 t.length false d1 xs he hnz hxs (by simpa using hu)
+        (Or.inl (by simp [b2n] at htl ⊢; omega)) (by omega)
+      unfold parseDouble
+      rw [this]
+      simp [b2n] at htl ⊢
+      omega
+    | true =>
+      simp only [sgOf, if_true] at ht hu htl
+      have := int_exact_negative t 0 t.length d1 xs he hnz hxs (by simpa using hu)
+        (Or.inl (by simp at htl ⊢; omega)) (by omega)
+      unfold parseDouble
+      rw [this]
+      have hsub : 2 ^ 64 - (2 ^ 64 - decVal (d1 :: xs)) = decVal (d1 :: xs) := by omega
+      simp only [hsub]
+      have hoff : 0 + 2 + xs.length = t.length := by simp at htl; omega
+      simp [hoff]
+
 end Qentem.Props.C11P
